@@ -22,6 +22,15 @@ CHECKS = {
  'C05': ('exploration', 'work-conservation oracle at every wait() entry and at every gate-controlled rest point',
          'Held on every explored rest point: no runnable-and-allowed task left unsubmitted; executing set == first max_workers in-flight tasks; serial wait() executes exactly one pending submission.',
          'Start-up wait expiry with sufficient launches is inconclusive, never a violation.', '4 C05'),
+ 'C07': ('exploration', 'key ledger (typed canonical identity <-> cache_key) checked as function and injection; cross-interpreter digest comparison under 16 hash seeds',
+         'Held on every explored tree: one identity -> one key (re-spelling, pickling, serializer round trip, 16 interpreters with different hash seeds), different identities -> different keys for every near-miss pair, every key accepted by LocalStorage. One known finding (marker-imitating dicts).',
+         'The harness identity is the definition of "distinct task": 1/1.0/True distinct, list==tuple, dict==frozendict with insertion order.', '4 C07'),
+ 'C15': ('exploration', 'algebraic-law monitors on constructed tasks, pickle copies (all protocols) and copies received by a freshly spawned interpreter',
+         'Held on every explored tree: normalisation, frozen, eq/hash laws, copy laws incl. post_init and absence of results/context; unsupported values rejected with TaskError only.',
+         'Harness normaliser/identity are the reference; NaN excluded.', '4 C15'),
+ 'C16': ('exploration', 'process-model table + context oracle over run() start events; canary scan of stored files',
+         'Held on every explored run: pid/ppid/thread/memory-inheritance as the backend promises, context == own filter_context(lab context), keys and stored bytes independent of context.',
+         'Memory sharing observed through a module global mutated after import.', '4 C16'),
  'C10': ('fault_enumeration', 'failure-closure (taint) model over results, cache contents, start events, launch ledger after the raise',
          'Held for every explored (DAG, failing subset, fault kind, backend, completion order, continue_on_failure).',
          'Unpicklable exceptions may surface as TaskDiedError; no bust_cache with failures.', '4 C10'),
